@@ -20,4 +20,9 @@ namespace embedded_pairing::core {
     template void fp_inverse<bls12_381::Fr>(bls12_381::Fr&, const bls12_381::Fr&);
     template void exponentiate<bls12_381::Fr, BigInt<256> >(bls12_381::Fr&, const bls12_381::Fr&, const BigInt<256>&);
     template void exponentiate<bls12_381::Fq, BigInt<384> >(bls12_381::Fq&, const bls12_381::Fq&, const BigInt<384>&);
+    // inline members of the non-template classes Fq/Fr are emitted only where they are used: exported pointers to them do that
+    extern int (*jedi_verif_fq_compare)(const bls12_381::Fq&, const bls12_381::Fq&);
+    int (*jedi_verif_fq_compare)(const bls12_381::Fq&, const bls12_381::Fq&) = &bls12_381::Fq::compare;
+    extern void (bls12_381::Fq::*jedi_verif_fq_inverse)(const bls12_381::Fq&);
+    void (bls12_381::Fq::*jedi_verif_fq_inverse)(const bls12_381::Fq&) = &bls12_381::Fq::inverse;
 }
